@@ -179,7 +179,7 @@ def handle : List String → Option String
       | _ => none)
     match u.save nfkdTable fs body (bool01 sp) (bool01 closed) d (bool01 ow) chunk with
     | none => pure "fuel"
-    | some (.error (e, p), u') => pure s!"err {excName e} {optPath p} {show01 u'.cached.isSome}"
+    | some (.error (e, _), u') => pure s!"err {excName e} {show01 u'.cached.isSome}"
     | some (.ok sv, u') =>
       let shown := match sv.opened with
         | some _ => hexBytes sv.pieces.flatten
